@@ -1,12 +1,14 @@
 use crate::engine::Ctx;
 
 pub mod c01;
+pub mod c02;
 
 pub fn run(ctx: &mut Ctx) {
     // corpus replay tier first
     replay_corpus(ctx);
     match ctx.id.as_str() {
         "C01" => c01::run_check(ctx),
+        "C02" => c02::run_check(ctx),
         other => {
             eprintln!("unknown property {}", other);
             std::process::exit(2);
@@ -17,6 +19,7 @@ pub fn run(ctx: &mut Ctx) {
 pub fn replay(ctx: &mut Ctx, case: &serde_json::Value) {
     match ctx.id.as_str() {
         "C01" => c01::replay(ctx, case),
+        "C02" => c02::replay(ctx, case),
         other => {
             eprintln!("unknown property {}", other);
             std::process::exit(2);
